@@ -9,6 +9,9 @@
                        newLeakyBucketPacer, packetdump run()).  One loop iteration is split into its
                        select outcomes: tick (snapshot of what to write, taken under the table lock),
                        one write per snapshot entry, receive from the hand-off channel, observe close.
+                       A third kind of goroutine is the one-shot `go n.resendPackets(nack)` the nack
+                       responder starts per incoming NACK (LOnce; f_spawn says whether it is counted by
+                       the WaitGroup and refused once closed).
      chan              the hand-off channel: twcc/rfc8888 packetChan, packetdump rtpChan,
                        intervalpli immediatePLINeeded, pacing queue, leaky bucket list
      table             the per-SSRC map (nack receiveLogs, report streams, intervalpli streams,
